@@ -23,7 +23,7 @@ ASSUMPTIONS = [
     "an atom adopted through append_bond (foreign atom) was given no coordinate: any row / any numeric charge is accepted "
     "for it, after which it must keep them",
 ]
-REQUIRED = {"op.readd_atom": 100, "op.del_atom": 500, "op.del_atom.by-element": 50, "op.del_atom.by-label": 50, "op.add_atom.no-charge": 100,
+REQUIRED = {"op.readd_atom": 100, "op.add_atom_bad_row": 30, "op.adopt_owned_atom": 50, "op.append_owned_bond": 10, "op.remove_substituent.by-index": 20, "start.from-library": 5, "op.del_atom": 500, "op.del_atom.by-element": 50, "op.del_atom.by-label": 50, "op.add_atom.no-charge": 100,
             "op.append_bond.foreign": 50, "op.remove_substituent": 50, "op.add_implicit_hydrogens": 50,
             "inspect": 5000, "op.raised": 50, "view.held-substructure-checked": 500, "op.extend_bonds.generator": 10, "op.del_bond.parallel": 5, "op.connect.stale-or-foreign-atom": 20, "start.unpickled": 5, "start.mol2": 20, "exh.sequences": 1000}
 CHUNK_TIMEOUT = 900
@@ -86,8 +86,12 @@ class Driver:
         self.ctx.violation(key, case=self.case, ops=self.ops[-8:], cls=type(self.mol).__name__, **detail)
 
     def sentinel(self):
+        # full-mantissa values (no rounding, no narrower float type leaves them as they are), unique per call
+        import random
+
         self.k += 1
-        return (float(self.k), self.k + 0.5, -float(self.k)), self.k / 8.0
+        r = random.Random(self.k * 7919)
+        return (r.uniform(-60, 60), r.uniform(-60, 60) + self.k, -r.uniform(1, 60)), r.uniform(-2, 2) + 1e-9 * self.k
 
     # ---- inspection at a quiescent point (public accessors only)
     def inspect(self, after, raised):
@@ -224,6 +228,36 @@ class Driver:
                     mod.add(a, (0, 0, 0), 0.0)
                     self.free.add(id(a))
                     mod.add_bond(bond)
+            elif kind == "add_atom_bad_row":
+                # a row that is not three numbers is refused, and the refusal leaves nothing behind
+                expect_raise = True
+                a = Atom("C", label=f"B{self.k}")
+                self.k += 1
+                m.add_atom(a, op[1])
+                return self.v("add_atom:malformed-coordinate-row-accepted", row=repr(op[1])[:40])
+            elif kind == "adopt_owned_atom":
+                # an Atom object that is (or was) part of ANOTHER molecule: whatever that does to the other molecule, this
+                # one stays aligned, lists the atom once and never keeps a bond to a non-member
+                donor, a, still_member = op[1], op[2], op[3]
+                ctx.count("op.adopt_owned_atom." + ("member-of-another-molecule" if still_member else "deleted-from-another-molecule"))
+                self._donors = getattr(self, "_donors", []) + [donor]
+                if op[4] == "add_atom":
+                    row, q = self.sentinel()
+                    m.add_atom(a, row)
+                    mod.add(a, row, 0.0)
+                else:
+                    bond = Bond(mod.resolve(op[5]), a)
+                    m.append_bond(bond)
+                    mod.add(a, (0, 0, 0), 0.0)
+                    self.free.add(id(a))
+                    mod.add_bond(bond)
+            elif kind == "append_owned_bond":
+                # a Bond object that was part of another molecule, re-pointed at two atoms of this one
+                donor, b = op[1], op[2]
+                self._donors = getattr(self, "_donors", []) + [donor]
+                b.a1, b.a2 = mod.resolve(op[3]), mod.resolve(op[4])
+                m.append_bond(b)
+                mod.add_bond(b)
             elif kind == "new_atom":
                 row, _ = self.sentinel()
                 a = m.new_atom(rng.choice(["C", "N", "O", "S"]), coord=row, label=f"N{self.k}")
@@ -305,7 +339,11 @@ class Driver:
                 gone = mod.reach(a1, a2)
                 i2 = mod.index(a2)
                 c2 = mod.row[id(a2)]
-                m.remove_substituent(a1, a2, ap_label="AP")
+                if len(op) > 3 and op[3] == "by-index":
+                    ctx.count("op.remove_substituent.by-index")
+                    m.remove_substituent(mod.index(a1), mod.index(a2), ap_label="AP")
+                else:
+                    m.remove_substituent(a1, a2, ap_label="AP")
                 for g in gone:
                     mod.delete(g)
                 new = [a for a in m.atoms if mod.index(a) < 0]
@@ -358,6 +396,25 @@ def pick_op(rng, d):
     mod = d.model
     n = len(mod.atoms)
     r = rng.random()
+    if rng.random() < 0.03:
+        return ("add_atom_bad_row", rng.choice([[1.0, 2.0], [1.0, 2.0, 3.0, 4.0], [[1.0, 2.0, 3.0]], [], 5.0]))
+    if n >= 2 and rng.random() < 0.05:
+        donor = make_donor(rng)
+        if rng.random() < 0.35 and donor.bonds:
+            b = rng.choice(list(donor.bonds))
+            donor.del_bond(b)
+            bonded = {frozenset((id(p), id(q))) for _, p, q in mod.bonds}
+            for _ in range(6):
+                i, j = rng.sample(range(n), 2)
+                if frozenset((id(mod.atoms[i]), id(mod.atoms[j]))) not in bonded:
+                    return ("append_owned_bond", donor, b, i, j)
+        a = rng.choice(list(donor.atoms))
+        still = rng.random() < 0.5
+        if not still:
+            donor.del_atom(a)
+        if rng.random() < 0.5:
+            return ("adopt_owned_atom", donor, a, still, "add_atom")
+        return ("adopt_owned_atom", donor, a, still, "bond", rng.randrange(n))
     if n == 0 or r < 0.14:
         return ("add_atom", rng.choice(["charge", "none"]))
     if r < 0.20:
@@ -437,10 +494,24 @@ def pick_op(rng, d):
         return ("del_bond", rng.choice(mod.bonds)[0])
     if r < 0.93 and mod.bonds:
         b, p, q = rng.choice(mod.bonds)
-        return ("remove_substituent", p, q) if rng.random() < 0.5 else ("remove_substituent", q, p)
+        form = "by-index" if rng.random() < 0.4 else "by-atom"
+        return ("remove_substituent", p, q, form) if rng.random() < 0.5 else ("remove_substituent", q, p, form)
     if r < 0.97:
         return ("add_implicit_hydrogens",)
     return ("add_atom", "charge")
+
+
+def make_donor(rng):
+    """another, living molecule whose atoms / bonds are handed to the molecule under test"""
+    import numpy as np
+    import molli as ml
+
+    k = rng.randrange(3, 7)
+    d = ml.Molecule([ml.Atom(rng.choice(["C", "N", "O", "F"]), label=f"D{i}") for i in range(k)], name="donor",
+                    coords=np.array([[float(i), 0.5 * i, -1.0] for i in range(k)]))
+    for i in range(1, k):
+        d.connect(i - 1, i)
+    return d
 
 
 def start_molecule(rng, cls_name, ctx):
@@ -449,7 +520,7 @@ def start_molecule(rng, cls_name, ctx):
     import molli as ml
 
     cls = getattr(ml, cls_name)
-    how = rng.choice(["empty", "mol2", "mol2", "mol2", "xyz", "copy", "pickle"])
+    how = rng.choice(["empty", "mol2", "mol2", "mol2", "xyz", "copy", "pickle", "library"])
     if ctx.tier == "thorough" and rng.random() < 0.02:
         how = "big"       # 744 / 3215 atoms: every inspection is quadratic in the atom count, so these are rare and short
     if how == "empty":
@@ -469,6 +540,19 @@ def start_molecule(rng, cls_name, ctx):
         elif how == "pickle":
             m = pickle.loads(pickle.dumps(m))
             ctx.count("start.unpickled")
+        elif how == "library" and cls_name == "Molecule":
+            # the object comes out of a molecule library (current or legacy format)
+            from vmon.props.C01 import make_v1_file
+            lp = ctx.tmp / f"start{rng.randrange(10**6)}.mlib"
+            legacy = rng.random() < 0.3
+            if legacy:
+                make_v1_file(lp)
+            lib = ml.MoleculeLibrary(lp, readonly=False, overwrite=not legacy)
+            with lib.writing():
+                lib["s"] = m
+            with lib.reading():
+                m = lib["s"]
+            ctx.count("start.from-library")
     # distinct sentinel charges so that a mis-deleted charge is visible
     if cls_name == "Molecule" and m.n_atoms and float(np.abs(m.atomic_charges).sum()) == 0.0:
         m.atomic_charges = np.arange(1, m.n_atoms + 1) / 16.0
